@@ -310,16 +310,20 @@ where
                 &mut None,
             );
             if new_laidx > laidx {
+                // A repair sequence whose cost we can't represent is too expensive to consider.
+                let Some(cf) = n
+                    .cf
+                    .checked_add(u16::from((self.parser.token_cost)(tidx)))
+                else {
+                    continue;
+                };
                 let nn = PathFNode {
                     pstack: n_pstack,
                     laidx: n.laidx,
                     repairs: n
                         .repairs
                         .child(RepairMerge::Repair(Repair::InsertTerm(tidx))),
-                    cf: n
-                        .cf
-                        .checked_add(u16::from((self.parser.token_cost)(tidx)))
-                        .unwrap(),
+                    cf,
                 };
                 nbrs.push((nn.cf, nn));
             }
@@ -333,11 +337,15 @@ where
 
         let la_tidx = self.parser.next_tidx(n.laidx);
         let cost = (self.parser.token_cost)(la_tidx);
+        // A repair sequence whose cost we can't represent is too expensive to consider.
+        let Some(cf) = n.cf.checked_add(u16::from(cost)) else {
+            return;
+        };
         let nn = PathFNode {
             pstack: n.pstack.clone(),
             laidx: n.laidx + 1,
             repairs: n.repairs.child(RepairMerge::Repair(Repair::Delete)),
-            cf: n.cf.checked_add(u16::from(cost)).unwrap(),
+            cf,
         };
         nbrs.push((nn.cf, nn));
     }
